@@ -231,8 +231,17 @@ pub fn with_aml(t: &Term, k: &mut dyn FnMut(&dyn Aml)) {
                 }
             }
             if es.len() == 255 {
-                // the 256th element is refused (C18); the builder still holds its 255
-                let _ = std::panic::catch_unwind(std::panic::AssertUnwindSafe(|| pb.add_element(&0x77u8)));
+                // A 256th element is refused (C18) -- by add_element today, but a crate may as well
+                // accept the call and refuse at serialisation. So the attempt is made on a second
+                // builder filled the same way: if it refused there, that builder (which has refused
+                // something and must hold its 255 unchanged) is the one judged; otherwise the first.
+                let mut pb2 = aml::PackageBuilder::new();
+                for e in es.iter() {
+                    with_aml(e, &mut |x| pb2.add_element(x));
+                }
+                if std::panic::catch_unwind(std::panic::AssertUnwindSafe(|| pb2.add_element(&0x77u8))).is_err() {
+                    return k(&pb2);
+                }
             }
             k(&pb)
         }
